@@ -202,7 +202,11 @@ def validate_shard(args):
     for line in out.splitlines():
         u = unquote_tlc(line)
         if u.startswith("VERDICT "):
-            verdicts.append(json.loads(u[8:]))
+            v = json.loads(u[8:])
+            fsname = os.path.basename(os.path.dirname(shard))[len("trace_"):]
+            if fsname != "default":
+                v["features"] = fsname
+            verdicts.append(v)
         elif u.startswith("DRIFT "):
             drifts.append(json.loads(u[6:]))
         elif u.startswith("STAT "):
@@ -272,7 +276,10 @@ def check(pid, tier, seed, replay=None):
     open_known = [e for e in known if e.get("status") == "open"]
 
     # 1. build from /repo's current working tree
-    feature_sets = P.get("features", {}).get(tier, [None]) if not replay else [None]
+    feature_sets = P.get("features", {}).get(tier, [None])
+    if replay:
+        with open(replay) as f:
+            feature_sets = json.load(f).get("features") or [None]
     bins = [(fs, build(P["bin"], fs)) for fs in feature_sets]
 
     # 2. (M) + (G)
@@ -325,7 +332,7 @@ def check(pid, tier, seed, replay=None):
             os.makedirs(rdir, exist_ok=True)
             path = os.path.join(rdir, "hang_seed%d.json" % seed)
             with open(path, "w") as f:
-                json.dump({"property": pid, "tier": tier, "seed": seed, "desc": h.get("desc"), "verdicts": [v]}, f, indent=1)
+                json.dump({"property": pid, "tier": tier, "seed": seed, "desc": h.get("desc"), "features": [fs], "verdicts": [v]}, f, indent=1)
             log("VIOLATION property=%s replay=%s codes=library_call_did_not_return" % (pid, path))
             log("  a library call of this case %s: desc=%s" % (h.get("why"), json.dumps(h.get("desc"))[:400]))
             return 1
@@ -406,8 +413,10 @@ def check(pid, tier, seed, replay=None):
         shown += 1
         path = os.path.join(rdir, "case_%d_seed%d.json" % (case, seed))
         with open(path, "w") as f:
+            vs_case = [x for (c, d, x) in violations if c == case]
             json.dump({"property": pid, "tier": tier, "seed": seed, "desc": desc,
-                       "verdicts": [x for (c, d, x) in violations if c == case][:20]}, f, indent=1)
+                       "features": sorted({x.get("features") for x in vs_case}, key=lambda z: z or ""),
+                       "verdicts": vs_case[:20]}, f, indent=1)
         log("VIOLATION property=%s replay=%s codes=%s" % (pid, path, ",".join(sorted(set(v["codes"])))))
     if len(seen_cases) > shown:
         log("... %d more violating cases not listed" % (len(seen_cases) - shown))
